@@ -103,22 +103,26 @@ func PipePort(vCb func(<-chan any), bCb func(*os.File)) (*Port, func(), error) {
 	if err != nil {
 		return nil, nil, err
 	}
+	verifRes(verifResOpen, 2)
 	ch := make(chan any, outputCaptureBufferSize)
 
 	var wg sync.WaitGroup
 	wg.Add(2)
+	verifRes(verifResGo, 2)
 	go func() {
 		defer wg.Done()
 		vCb(ch)
 	}()
 	go func() {
 		defer wg.Done()
+		defer verifRes(verifResClose, 1)
 		defer r.Close()
 		bCb(r)
 	}()
 
 	port := &Port{File: w, Chan: ch}
 	done := func() {
+		verifRes(verifResClose, 1)
 		w.Close()
 		close(ch)
 		wg.Wait()
@@ -245,6 +249,7 @@ const filePortChanSize = 32
 func FilePort(f *os.File, valuePrefix string) (*Port, func()) {
 	ch := make(chan any, filePortChanSize)
 	relayDone := make(chan struct{})
+	verifRes(verifResGo, 1)
 	// The channel is never closed: a background job may still be sending to it
 	// when the port is cleaned up, and a send on a closed channel panics.
 	// Instead, the cleanup function closes stop, after which senders get
